@@ -36,8 +36,8 @@ VERUS = [dict(
             if i >= 0 { lemma_total_remove(v0, i); lemma_total_nonneg(v0.remove(i)); }
         }""")]),
         dict(file=F, path=[IMPL, "fn evict_entries"], wrap=IMPL, loop_count=1,
-             edits=[dict(rule="R5", regex=r"log::error!\((?:[^()]|\([^()]*\))*\);", replace="", count=1),
-                    dict(rule="R5", find='debug_assert!(false, "memory_used > limit with empty cache");', replace="assert(false); // proved unreachable under wf"),],
+             edits=[dict(rule="R5", regex=r"log::error!\((?:[^()]|\([^()]*\))*\);", replace="", count="any"),
+                    dict(rule="R5", regex=r'debug_assert!\(false, "[^"]*"\);', replace="assert(false); // proved unreachable under wf", count="any"),],
              contract="""    requires wf(*old(self)),
     ensures wf(*final(self)), within_budget(*final(self)), """ + KEEP + """
         evicted_to(old(self).lru_queue.view(), old(self).memory_limit as int, final(self).lru_queue.view()),""",
